@@ -59,7 +59,7 @@ def behaviour(draw, typ, n_ent, rt=False):
 @st.composite
 def scenarios(draw, max_sims=5, min_sims=1, types=TYPES, allow_mem=True, allow_weak=True,
               allow_groups=True, max_until=8, debug_ok=True, sensitive=False, max_conns=8,
-              lazy=None, cache=None, future_ok=True, allow_sync=True):
+              lazy=None, cache=None, future_ok=True, allow_sync=True, parallel=True):
     n = draw(st.integers(min_sims, max_sims))
     sids = [f"S{i}" for i in range(n)]
     paths = {}
@@ -77,7 +77,7 @@ def scenarios(draw, max_sims=5, min_sims=1, types=TYPES, allow_mem=True, allow_w
     nent = {}
     for s in sids:
         typ[s] = draw(st.sampled_from(types))
-        nent[s] = draw(st.sampled_from([1, 1, 2]))
+        nent[s] = draw(st.sampled_from([1, 2, 2]))
         sp = {"sid": s, "type": typ[s], "n_ent": nent[s]}
         tr = draw(st.integers(0, 7))
         if allow_mem and tr == 0:
@@ -129,6 +129,24 @@ def scenarios(draw, max_sims=5, min_sims=1, types=TYPES, allow_mem=True, allow_w
             c["init"] = True
         slots.add(slot)
         conns.append(c)
+        # a second connection of another kind between the same pair (through another entity): C01/C02/C05/C07
+        # defects in the per-pair minimum of delays need exactly this shape
+        if parallel and (nent[src] > 1 or nent[dst] > 1) and draw(st.integers(0, 3)) == 0:
+            se2 = (se + 1) % nent[src]
+            de2 = (de + 1) % nent[dst]
+            slot2 = (src, se2, dst, de2, da)
+            if slot2 not in slots:
+                c2 = {"src": src, "se": se2, "sa": c["sa"], "dst": dst, "de": de2, "da": da}
+                k2 = draw(st.sampled_from(["shift1", "shift2", "plain"] if not backward else ["shift1", "shift2"]))
+                if k2 == "shift1" and c.get("shift") == 1:
+                    k2 = "shift2"
+                if k2.startswith("shift"):
+                    c2["shift"] = int(k2[-1])
+                    if da == "mi":
+                        c2["init"] = True
+                if k2 != "plain" or c.get("shift") or c.get("weak"):
+                    slots.add(slot2)
+                    conns.append(c2)
     ie = {}
     for s in sids:
         if typ[s] == "event-based" and draw(st.integers(0, 3)) > 0:
@@ -240,6 +258,22 @@ def micro_scenarios():
                                  _sim("C", "time-based", steps=[2])],
                         "conns": [_c("A", "po", "B", "mi"), _c("A", "po", "C", "mi"), _c("C", "po", "B", "mi", shift=1, init=True)],
                         "until": 6}
+    # chain X -> A -> C where A feeds C over two triggering connections of different delay, the slower one
+    # connected last, and X triggers A: per-pair minimum of delays, direct and transitive
+    out["parallel_trigger_chain"] = {
+        "tree": ["X", "A", "C"],
+        "sims": [_sim("X", "event-based", steps=[2], emit=[1]), dict(_sim("A", "event-based", emit=[1]), n_ent=2),
+                 dict(_sim("C", "hybrid", steps=[3], emit=[0]), n_ent=2)],
+        "conns": [_c("X", "eo", "A", "ti"), _c("A", "eo", "C", "ti"),
+                  dict(_c("A", "eo", "C", "ti", shift=1), se=1, de=1)],
+        "initial_events": {"X": 0}, "until": 6}
+    # pulled (persistent, cache) connections of different delay between one pair: shift 2 into a trigger input
+    # (no initial data) next to a plain one
+    out["pulled_shift2_and_plain"] = {
+        "tree": ["A", "B"],
+        "sims": [dict(_sim("A", "time-based", steps=[1]), n_ent=2), dict(_sim("B", "hybrid", steps=[1], emit=[0]), n_ent=2)],
+        "conns": [_c("A", "po", "B", "mi"), dict(_c("A", "po", "B", "ti", shift=2), se=1, de=1)],
+        "until": 6}
     for s in out.values():
         s.setdefault("initial_events", {})
         s.setdefault("world", {"cache": True})
